@@ -11,6 +11,12 @@ PROFILE = {
                     whowas=0.2, chanlist=6, cquery=2),
     "mode_weights": dict(b=12, e=9, I=9, i=6, k=1, l=1, o=3, h=1, v=3, q=0.3, a=0.3, m=2, n=2, s=1, t=0.5),
     "nicks": ["al", "bo", "cy", "root", "adm", "far", "di"],
+    # operator masks near the clients' identities (nick!~user@127.0.0.1): OPER decisions go through the matcher
+    "cfg_variants": [{}, {"oper_masks": {"adm": "a*!*@*", "root": "*!~r?@*"}},
+                     {"oper_masks": {"adm": "?dm!*@127.*", "root": "*o*!*@*.0.1"}},
+                     {"oper_masks": {"adm": "*!*@127.0.0.?", "root": "root!~rt@127.0.0.1"}},
+                     {"oper_masks": {"adm": "*adm*", "root": "r??t*", "far": "*!*@*.0.2"}},
+                     {"oper_masks": {"adm": "ad?", "root": "*!~rt@127.0.0.1*"}}],
 }
 
 
